@@ -187,7 +187,7 @@ def rule_flag_reads(ctx):
                 kind = None
             ctx.add("FLOW-READ", "%s.%s@%s#%d" % (owner, n["name"], hq.last(b["def_path"], 2), n_reads), kind is not None, ctx.site(b, n),
                     "read of %s.%s is a %s" % (owner, n["name"], kind or "use outside the documented gates: %s" % hq.render(p)[:80]))
-    ctx.floor("FLOW-READ", "flag_reads", n_reads, 12)
+    ctx.floor("FLOW-READ", "flag_reads", n_reads, 6)
     # main: the flags are the negated command-line switches and nothing else
     m = fx.fn("command_line::procedures::main")
     for st in hq.nodes(m["body"], "Struct"):
